@@ -32,7 +32,8 @@ REGISTRATION = {
 
 MODULES = ["OllamaVerif.Properties.C18", "OllamaVerif.Proofs.Sampler", "OllamaVerif.Model.Sampler"]
 THEOREMS = ["OllamaVerif.C18." + t for t in (
-    "greedy_argmax", "filters_nonempty_prefix", "topK_isTopK", "index_in_range",
+    "greedy_argmax", "filters_nonempty_prefix", "topK_isTopK", "topK_returns_input_tokens", "index_in_range",
+    "minP_is_threshold_filter", "pick_first_index", "sample_never_panics", "sample_never_panics_fixed",
     "sample_admissible_partial", "sample_admissible_fixed_partial", "never_neg_inf", "result_mem_filters",
     "pick_search_spec",
     "deterministic", "hist_nth", "Sample_indep_r", "stream_of_seed", "F18_nan_instead_of_token", "F18_guard_fails",
